@@ -92,6 +92,10 @@ func (p *provProfile) note(format string, a ...interface{}) {
 
 func (p *provProfile) build() {
 	p.e.resetManager()
+	if p.d != nil {
+		// nominations live in memory only: a new incarnation knows nothing of those announced before the restart
+		p.d.nomTimes = map[string][]time.Time{}
+	}
 	p.e.AddStateControllers()
 	p.e.AddNodePoolControllers()
 	p.e.AddLifecycle()
